@@ -25,6 +25,11 @@ func VsymC05Final() {
 	chain := make([]*x509.Certificate, n)
 	names := []string{"c0", "c1", "c2", "c3"}
 	subjects := []string{"CN=c0", "CN=c1", "CN=c2", "CN=c3"}
+	// one certificate of the chain may have an empty subject (legal X.509; it renders as "")
+	emptyAt := vr.Choice("emptySubjectAt", n+1) - 1
+	if emptyAt >= 0 {
+		subjects[emptyAt] = ""
+	}
 	raw := make([]int64, n)
 	for i := 0; i < n; i++ {
 		raw[i] = vr.Int64("result")
@@ -40,7 +45,9 @@ func VsymC05Final() {
 		}
 		results[i] = r
 		c := &x509.Certificate{}
-		c.Subject.CommonName = names[i]
+		if i != emptyAt {
+			c.Subject.CommonName = names[i]
+		}
 		chain[i] = c
 	}
 	final, subject := revocationFinalResult(results, chain, log.Discard)
@@ -105,11 +112,23 @@ func VsymC05Options() {
 		opts.RevocationCodeSigningValidator = val
 	}
 	// the validator's verdict on one certificate, to see it arrive in the outcome
-	bad := vr.Choice("reportedRevoked", n+1) - 1
-	if bad >= 0 {
+	bad := vr.Choice("reportedRevoked", n+2) - 1
+	valErr := bad == n // the validator itself fails
+	if valErr {
+		val.err = true
+	} else if bad >= 0 {
 		val.results[bad].Result = revocationresult.ResultRevoked
 	}
-	v, err := NewVerifierWithOptions(store, opts)
+	var v notation.Verifier
+	var err error
+	if vr.Choice("constructor", 2) == 1 {
+		// the deprecated constructor takes the document and the plugin manager as arguments
+		doc := opts.OCITrustPolicy
+		opts.OCITrustPolicy = nil
+		v, err = NewWithOptions(doc, store, nil, opts)
+	} else {
+		v, err = NewVerifierWithOptions(store, opts)
+	}
 	vr.Assert(err == nil, "harness: verifier")
 	if err != nil {
 		return
@@ -121,7 +140,7 @@ func VsymC05Options() {
 		vr.Reach("revocation skipped")
 		return
 	}
-	vr.Assert(val.calls == 1, "the validator is consulted once")
+	vr.Assert(val.calls == 1, "the validator the caller supplied is consulted once")
 	same := len(val.chain) == n
 	for i := 0; i < n && i < len(val.chain); i++ {
 		same = same && val.chain[i] == chain[i]
